@@ -160,6 +160,9 @@ HAND = [
     "def f():\n    a = 1\n    def g():\n        def h():\n            return a\n        return h\n    a += 1\n    return g",
     "def f():\n    x = [\n      lambda: i for i in range(3)]\n    y = {j: (\n      lambda j=j: j) for j in x}\n    return x, y",
     "def f():\n    return [(y := g(z := x)) for x in r], (\n  {x for x in r if (p := (\n    lambda d=(q := x): d))},\n  [(a :=\n    [(b := v) for v in s]) for x in r])",
+    # parameter lists continued over lines (the end of the list in every column relation to its start), lambdas continued with a backslash
+    "def f(a,\n    bb):\n    return a + bb + c\ndef g(a,\n  b=d):\n    return a\ndef h(\n      ):\n    return e\ndef i(a, *,\n       k=a1):\n    return k",
+    "l = lambda a, \\\n         b: a + b + c\nclass K:\n  def m(self,\n    x):\n    return x + y\n  n = lambda s,\\\n  t=u: s",
     "async def f():\n    async with a as b:\n        pass\n    async for c in d:\n        pass\n    return [e async for e in g]",
 ]
 
